@@ -262,6 +262,32 @@ func runC02(rec *vkit.Recorder, c *c02Case) []vkit.Violation {
 		add(key, "single prometheus would scrape %d target(s), the shards scrape %d\nonly single prometheus:\n  %s\nonly sharded:\n  %s", len(want), len(got), strings.Join(missing, "\n  "), strings.Join(extra, "\n  "))
 	}
 
+	// ---- next round: discovery finds nothing for the job any more (the assignment sent to the shard
+	// then has no entry for the job); a single Prometheus scrapes nothing, so must the shard
+	if len(assign) > 0 {
+		if err := inj.UpdateTargets(map[string][]*target.Target{}); err != nil {
+			add("C02/inject-fails", "UpdateTargets(empty): %v", err)
+		} else if data, err := ioutil.ReadFile(out); err == nil {
+			if gen2, err := config.Load(string(data), false, log.NewNopLogger()); err != nil {
+				add("C02/generated-config-invalid", "after the targets vanished: %v", err)
+			} else {
+				for _, j := range gen2.ScrapeConfigs {
+					if j.JobName != c.Job.Name {
+						continue
+					}
+					left := 0
+					for _, sdc := range j.ServiceDiscoveryConfigs {
+						if sc, ok := sdc.(pdisc.StaticConfig); ok {
+							left += len(sc)
+						}
+					}
+					if left != 0 {
+						add("C02/vanished-targets-still-scraped", "all targets of job %q vanished from discovery, the generated configuration still lists %d", c.Job.Name, left)
+					}
+				}
+			}
+		}
+	}
 	// ---- evidence classes
 	var cls []string
 	nt := false
@@ -390,6 +416,15 @@ func genJob(t *rapid.T, name string) jobSpec {
 	}
 	srcPool := append([]string{"__address__", "__scheme__", "__metrics_path__", "__param_module", "job", "instance"}, discLabelPool...)
 	tgtPool := []string{"__address__", "__metrics_path__", "__scheme__", "__param_module", "__param_target", "__param_extra", "instance", "job", "custom", "dc", "zone", "__tmp_x"}
+	// a configured multi-valued param overwritten by relabeling with one of its own configured values
+	if len(j.Params) > 0 && rapid.IntRange(0, 3).Draw(t, "paramToConfigured") == 0 {
+		for k, vs := range j.Params {
+			if len(vs) >= 2 {
+				j.Rules = append(j.Rules, relRule{Action: "replace", Target: "__param_" + k, Replacement: strp(vs[rapid.IntRange(0, len(vs)-1).Draw(t, "paramToConfigured-which")])})
+				break
+			}
+		}
+	}
 	nr := rapid.IntRange(0, 5).Draw(t, "nRules")
 	for i := 0; i < nr; i++ {
 		l := fmt.Sprintf("r%d", i)
